@@ -377,6 +377,11 @@ func run(c Case, dir string, res *lib.Result) string {
 	faults := 0
 	if c.Kind == "fault" {
 		w.hook = func(n int, req *http.Request) *http.Response {
+			// a 404 on the referrers API is how a registry says it does not implement it (the client must then use the
+			// fallback tag): a registry that implements the API never answers so, the fault is not injected there
+			if c.FaultKind == "404" && strings.Contains(req.URL.Path, "/referrers/") {
+				return nil
+			}
 			if n >= c.FaultAt && faults < c.FaultN {
 				faults++
 				switch c.FaultKind {
